@@ -14,6 +14,18 @@ from .generic_value import clone
 from .undecided_value import contains_unmanaged
 
 
+def contains(values, item):
+    """`item in values`, but a comparison which raises an exception
+    (unrelated types) is handled like a comparison which returns False."""
+    for value in values:
+        try:
+            if value is item or value == item:
+                return True
+        except Exception:
+            pass
+    return False
+
+
 class CollectionValue(GenericValue):
     _current_op = "x in snapshot"
 
@@ -69,7 +81,7 @@ class CollectionValue(GenericValue):
             elements = self._ast_node.elts
 
         for old_value, old_node in zip(self._old_value, elements):
-            if old_value not in self._new_value:
+            if not contains(self._new_value, old_value):
                 yield Delete(
                     flag="trim",
                     file=self._file,
@@ -101,7 +113,7 @@ class CollectionValue(GenericValue):
                     new_value=old_value,
                 )
 
-        new_values = [v for v in self._new_value if v not in self._old_value]
+        new_values = [v for v in self._new_value if not contains(self._old_value, v)]
         if new_values:
             yield ListInsert(
                 flag="fix",
